@@ -46,6 +46,38 @@ def claim_window_finished_workflow(sig, ctx) -> bool:
     return bool(tr) and any(e["e"] == "crash" for e in tr["events"])
 
 
+def claim_window_before_stage(sig, ctx) -> bool:
+    """Crash between the claim commit of a stage and its plan commit when the builder adds BEFORE children and
+    the stage has predefined tasks: recovery sees RUNNING + start_time + NOT_STARTED tasks and pushes StartTask
+    (before-stage skipped) or starts parent task and child concurrently; the run ends wedged or with another outcome."""
+    if ctx["formula"] not in sig["formulas"]:
+        return False
+    prog = ctx["program"]
+    parents = {s["parent"] for s in prog["stages"] if s["parent"] and s["owner"] == "BEFORE"}
+    if not parents:
+        return False
+    tr = ctx.get("trace")
+    if not tr:
+        return (( _st(ctx).get("cnt") or {}).get("crashes", 0) >= 1)
+    for e in tr["events"]:
+        if e["e"] != "crash":
+            continue
+        s = e["s"]
+        for p in parents:
+            row = s["st"].get(p)
+            if not row or row["status"] != "RUNNING" or not row["started"]:
+                continue
+            sd = next(x for x in prog["stages"] if x["ref"] == p)
+            tasks_untouched = all(s["tk"].get(t["name"], {}).get("status") == "NOT_STARTED" for t in sd["tasks"])
+            kids = [k["ref"] for k in prog["stages"] if k["parent"] == p and k["owner"] == "BEFORE"]
+            kids_pending = any(k not in s["st"] or s["st"][k]["status"] == "NOT_STARTED" for k in kids)
+            no_start_msg = not any(m["typ"] in ("StartTask",) and m["s"] == p for m in s["q"]) and \
+                not any(m["typ"] == "StartStage" and m["s"] in kids for m in s["q"])
+            if tasks_untouched and kids_pending and no_start_msg:
+                return True
+    return False
+
+
 def unbounded_transient(sig, ctx) -> bool:
     """The transient-retry budget is never reached: only for a task scripted to raise TransientError
     at least as often as the documented limit allows (n >= 9), and only for the bound / the outcome."""
@@ -86,6 +118,7 @@ PREDICATES = {
     "stale_redirect": stale_redirect,
     "claim_window_finished_workflow": claim_window_finished_workflow,
     "unbounded_transient": unbounded_transient,
+    "claim_window_before_stage": claim_window_before_stage,
     "late_branch_kill": late_branch_kill,
     "always": always,
 }
